@@ -198,7 +198,7 @@ def finish(pid, tier, level, obligations, coverage, assumptions, t_start, seed):
             seenk.add(o.key)
             print(f'KNOWN-FINDING: property={pid} key={o.key} {known[o.key]}')
     for o in viol:
-        path = write_replay(pid, dict(obligation=o.name, detail=o.detail, **(o.cex or {})))
+        path = write_replay(pid, dict(dict(o.cex or {}), obligation=o.name, obligation_detail=o.detail))
         print(f'VIOLATION property={pid} replay={path}')
         print(f'  obligation {o.name}: {o.detail}')
     for o in incon:
